@@ -11,7 +11,7 @@ import re
 import vf
 
 META = {
-    "text": "22 theorems (Coq, no axioms). FULL, for every event sequence with adversarial peers (model of the BlockFetcher+"
+    "text": "23 theorems (Coq, no axioms). FULL, for every event sequence with adversarial peers (model of the BlockFetcher+"
             "BlockProcessor loop): blocks handed to the chain service have heights ancestor+1, +2, ... (no gap, no duplicate), each "
             "is the block the hash list names and a child of the previous one (first: of the ancestor); success stop only for the acknowledged "
             "target and at most once; every error leaves the loop; a stale AddBlockRsp can only stop the session; the retry head is always "
@@ -23,7 +23,8 @@ META = {
             "idiom. Tie on every run: step engine (real BlockFetcher/BlockProcessor, loop body replayed, every message and queue diffed with "
             "the model); real Syncer/Finder/HashFetcher/BlockFetcher goroutines under StubSyncer (contiguity, linkage, clean session end, "
             "restart; Finder result diffed with the model); chain-side engine (two real ChainServices: getAnchorsNew / findAncestor with "
-            "stored side branches, diffed with the model, ancestor on both main chains, full scan = highest common).",
+            "stored side branches, diffed with the model, ancestor on both main chains, full scan = highest common); real verifySeq per "
+            "message type + stale messages of session 1 injected into session 2; gen_seqcases.go -> Gen/SeqCases.v reflection.",
     "note": "Trusted: Coq kernel + vm_compute (no axioms); engines, generators, predicates of checks/C17.py; the 20-line select-loop body "
             "copied into the step driver, hfCh given capacity 1, symbolic block ids (Hash field set directly) in the step engine; "
             "StubBlockChain as the peers' chain in the syncer engines (the real findAncestor/getAnchorsNew are tied by the chain-side engine "
@@ -267,6 +268,16 @@ def gen_real_cases(ctx):
                           "fetch": 2, "hashreq": 4, "peers": [{"chain": "remote", "mode": "ok", "after": 0}] * 2, "lieanc": -1,
                           "second": True, "staleadd": False, "timeoutms": 2000,
                           "hftimeoutms": T, "hashk": k, "hashmode": mode, "hashdelayms": d})
+    # two sessions on one Syncer: in the second one a poisoned copy carrying the FIRST session's sequence number precedes every
+    # sequenced response (ancestor / hash-by-number / hashes / chunks / finder result / close / stop)
+    for _ in range(4 if quick else 40):
+        rl = rng.randrange(5, 13)
+        common = rng.randrange(0, rl)
+        ll = rng.randrange(common, rl)
+        cases.append({"common": common, "locallen": ll, "remotelen": rl, "target": rl, "spliceat": 0, "fullscan": rng.random() < 0.75,
+                      "fetch": rng.choice([1, 2, 3]), "hashreq": rng.choice([2, 3, 5]),
+                      "peers": [{"chain": "remote", "mode": "ok", "after": 0}] * rng.choice([1, 2]), "lieanc": -1,
+                      "second": True, "staleadd": False, "timeoutms": 2000, "stale2": True})
     return cases
 
 
@@ -313,6 +324,17 @@ def real_predicate(c, o):
         bad.append(("s1:honest-peers-but-no-success", s1))
     if honest and c["fullscan"] and s1["started"] and s1["ancestor"] >= 0 and s1["ancestor"] != min(c["common"], c["locallen"], c["remotelen"]):
         bad.append(("s1:fullscan-not-highest-common", [s1["ancestor"], c["common"]]))
+    if c.get("stale2") and o.get("s2") is not None and o["s2"]["started"] and o["s2"]["stop"] not in ("hang", "skipped") \
+            and "imeout" not in o["s2"]["stop"]:
+        s2 = o["s2"]
+        # the stale messages must leave no trace: same ancestor and deliveries as without them
+        adds2 = s2["adds"] or []
+        if s2["stop"] != "ok":
+            bad.append(("s2:stale-message-of-previous-session-changed-the-outcome", {"stop": s2["stop"], "injected": s2["injected"]}))
+        if c["fullscan"] and s2["ancestor"] != s2["hc"]:
+            bad.append(("s2:stale-message-changed-the-ancestor", {"ancestor": s2["ancestor"], "highest_common": s2["hc"]}))
+        if adds2 and s2["ancestor"] >= 0 and [a["no"] for a in adds2] != list(range(s2["ancestor"] + 1, s2["ancestor"] + 1 + len(adds2))):
+            bad.append(("s2:stale-message-changed-the-deliveries", {"adds": [a["no"] for a in adds2]}))
     if c.get("second") and o.get("s2") is not None:
         s2 = o["s2"]
         if s1["stop"] != "hang" and not s2["started"] and s2["local_best"] < min(40, c["remotelen"] + 4):
@@ -461,10 +483,31 @@ def eval_step_cases(ctx, cases, obs):
     return res, ""
 
 
+def gen_seqcases(ctx, repo=None):
+    """Translator: go/ast over <repo>/types/message and syncer/syncerservice.go -> coq/Gen/SeqCases.v."""
+    src = os.path.join(ctx.verif, "gen", "gen_seqcases.go")
+    outp = os.path.join(ctx.verif, "coq", "Gen", "SeqCases.v")
+    tmp = os.path.join(ctx.workdir, "SeqCases.v")
+    rc, log = vf.sh(["go", "run", src, repo or ctx.repo, tmp], cwd=os.path.join(ctx.verif, "gen"), env=ctx.goenv(), timeout=300)
+    if rc != 0:
+        raise RuntimeError("gen_seqcases failed:\n" + log[-2000:])
+    with vf.Lock("coq"):
+        vf.write_if_changed(outp, open(tmp).read())
+    return log
+
+
 def run(ctx):
     quick = ctx.tier == "quick"
     rng = ctx.rng
+    seq_log = gen_seqcases(ctx)
     pr = ctx.prove()
+    # coq/Gen/SeqCases.v is shared: after proving against another tree put the translation of /repo back
+    if os.path.realpath(ctx.repo) != "/repo" and os.path.isdir("/repo/syncer"):
+        try:
+            gen_seqcases(ctx, "/repo")
+        except RuntimeError:
+            pass
+    ctx.cov["verifyseq_translation"] = seq_log.strip().split("\n")[-3:]
     ctx.cov["trusted_base"] = ["Coq 8.16.1 kernel + vm_compute", "Go toolchain", "overlay build of package syncer",
                                "engine harness/engines/syncer (step driver = copy of the select-loop body; StubSyncer hub for real runs)",
                                "generators and direct predicates in checks/C17.py"]
@@ -508,6 +551,19 @@ def run(ctx):
     for ci, (c, o) in enumerate(zip(rcases, robs)):
         for name, det in real_predicate(c, o):
             pred_fail.append((name, "real", ci, 0, det))
+
+    # ---- session layer: the real verifySeq on every sequenced message type (old / current / future number)
+    fseq = os.path.join(ctx.workdir, "seq.out")
+    rcq, logq = ctx.run_bin(binp, ["-test.run", "TestVerifC17Seq"], env={"VERIF_OUT": fseq}, timeout=300)
+    if rcq != 0:
+        raise RuntimeError("syncer engine TestVerifC17Seq failed:\n" + logq[-2000:])
+    seqobs = json.loads(open(fseq).read())
+    ctx.cov["verifyseq_types_checked"] = sorted(seqobs)
+    for name, r in sorted(seqobs.items()):
+        if r != [False, True, False]:       # Session model: recv (MSeq q) forwards iff q = seq
+            pred_fail.append(("stale-%s-passes-the-sequence-check" % name, "seq", 0, 0, {"type": name, "old/current/future accepted": r}))
+    if len(seqobs) < 7:
+        pred_fail.append(("verifyseq-engine-incomplete", "seq", 0, 0, sorted(seqobs)))
 
     # ---- Finder correspondence on the honest real cases
     fitems, fidx = [], []
@@ -608,12 +664,14 @@ def run(ctx):
         if key in reported:
             continue
         reported.add(key)
-        c = (scases if kind == "step" else ccases if kind == "chain" else rcases)[ci]
+        c = {"engine": "TestVerifC17Seq"} if kind == "seq" else (scases if kind == "step" else ccases if kind == "chain" else rcases)[ci]
         rep = {"case": c, "detail": det}
         if kind == "step":
             rep["concrete_events"] = [o["cev"] for o in sobs[ci][:si + 1]]
         elif kind == "chain":
             rep["observed"] = {k: v for k, v in cobs[ci].items() if k not in ("asker", "main")}
+        elif kind == "seq":
+            rep["observed"] = seqobs
         else:
             rep["observed"] = robs[ci]
         ctx.finding(key, "sync property '%s' fails on the real syncer (%s engine)" % (name, kind), rep)
